@@ -74,6 +74,10 @@ def coerce(v, ty: Ty, st=None):
         raise Unsupported(f"python object {v.o!r} where {ty} expected")
     if v.ty == ty:
         return v
+    if isinstance(ty, TOpt) and isinstance(v.ty, TOpt) and isinstance(ty.inner, TRef) and isinstance(v.ty.inner, TRef):
+        # Optional reference seen at another class of its family: None stays None
+        si, so = v.ty.sort(), ty.sort()
+        return V(ty, z3.If(si.is_none(v.z), so.none, so.some(si.v(v.z))))
     if isinstance(ty, TOpt):
         if v.ty == NONE:
             return V(ty, ty.sort().none)
